@@ -181,7 +181,10 @@ func (pv *Prov) desc(v ssa.Value, depth int, seen map[ssa.Value]bool) map[string
 		seen[v] = true
 		defer delete(seen, v)
 		out := map[string]bool{}
-		for _, e := range x.Edges {
+		for i, e := range x.Edges {
+			if !FeasibleEdgeInto(x.Block(), i) {
+				continue
+			}
 			for s := range pv.desc(e, depth, seen) {
 				out[s] = true
 			}
@@ -349,6 +352,9 @@ func (pv *Prov) callDesc(v ssa.Value, idx int, depth int, seen map[ssa.Value]boo
 	if callee.Pkg != nil && (callee.Pkg.Pkg.Path() == "github.com/pkg/errors" || callee.Pkg.Pkg.Path() == "github.com/pingcap/errors") && errIdentity[callee.Name()] && len(cc.Args) > 0 {
 		return pv.desc(cc.Args[0], depth, seen)
 	}
+	if g := pv.trivialGetter(callee, cc.Args, idx, depth, seen); g != nil {
+		return g
+	}
 	name := pv.funcName(callee)
 	if callee.Signature.Recv() != nil && len(cc.Args) > 0 {
 		recv := pv.desc(cc.Args[0], depth-1, seen)
@@ -452,7 +458,7 @@ func (pv *Prov) localFieldStores(al *ssa.Alloc, field int) []ssa.Value {
 	for _, r := range *al.Referrers() {
 		if fa, ok := r.(*ssa.FieldAddr); ok && fa.Field == field {
 			for _, rr := range *fa.Referrers() {
-				if st, ok := rr.(*ssa.Store); ok && st.Addr == ssa.Value(fa) {
+				if st, ok := rr.(*ssa.Store); ok && st.Addr == ssa.Value(fa) && Feasible(st) {
 					out = append(out, st.Val)
 				}
 			}
@@ -501,7 +507,7 @@ func (pv *Prov) allocStores(al *ssa.Alloc) []ssa.Value {
 		for _, r := range *refs {
 			switch y := r.(type) {
 			case *ssa.Store:
-				if y.Addr == v {
+				if y.Addr == v && Feasible(y) {
 					out = append(out, y.Val)
 				}
 			case *ssa.MakeClosure:
@@ -526,4 +532,67 @@ func HasSub(descs []string, sub string) bool {
 		}
 	}
 	return false
+}
+
+// trivialGetter inlines module functions that consist of a single block returning a chain of
+// field loads of a parameter (accessors such as `func (r *Region) StartKey() []byte { return
+// r.meta.StartKey }` are NOT inlined when they call other functions). Returns nil when fn is
+// not such a getter.
+func (pv *Prov) trivialGetter(fn *ssa.Function, args []ssa.Value, idx int, depth int, seen map[ssa.Value]bool) map[string]bool {
+	if fn == nil || len(fn.Blocks) != 1 || !pv.p.InModule(fn) {
+		return nil
+	}
+	b := fn.Blocks[0]
+	ret, ok := b.Instrs[len(b.Instrs)-1].(*ssa.Return)
+	if !ok || idx >= len(ret.Results) {
+		return nil
+	}
+	for _, in := range b.Instrs {
+		switch in.(type) {
+		case *ssa.FieldAddr, *ssa.Field, *ssa.UnOp, *ssa.Return, *ssa.DebugRef:
+		default:
+			return nil
+		}
+	}
+	// walk the chain from the result back to a parameter
+	var chain []string
+	v := ret.Results[idx]
+	for i := 0; i < 8; i++ {
+		switch x := v.(type) {
+		case *ssa.UnOp:
+			if x.Op != token.MUL {
+				return nil
+			}
+			fa, ok := x.X.(*ssa.FieldAddr)
+			if !ok {
+				return nil
+			}
+			chain = append(chain, fieldName(fa.X.Type(), FieldOfAddr(fa)))
+			v = fa.X
+			continue
+		case *ssa.Field:
+			chain = append(chain, fieldName(x.X.Type(), FieldOfField(x)))
+			v = x.X
+			continue
+		case *ssa.Parameter:
+			pi := -1
+			for k, p := range fn.Params {
+				if p == x {
+					pi = k
+				}
+			}
+			if pi < 0 || pi >= len(args) || len(chain) == 0 {
+				return nil
+			}
+			base := pv.desc(args[pi], depth-1, seen)
+			return pv.mapSet(base, func(s string) string {
+				for k := len(chain) - 1; k >= 0; k-- {
+					s = "fld(" + chain[k] + "," + s + ")"
+				}
+				return s
+			})
+		}
+		return nil
+	}
+	return nil
 }
